@@ -62,37 +62,32 @@ structure St where
   exit : Bool
 deriving Repr
 
+/-- `results.pop()` if full, `results.push`, then the update of `tau` / `exitflag` (the body of `if (dst > mindist && dst <= tau)`) -/
+def accept (Q : Query) (kk : Nat) (s : St) (dst : Int) (index : Nat) : St :=
+  let r := insAsc (dst, (index : Int)) (if s.res.length = kk then s.res.dropLast else s.res)
+  if r.length = kk then
+    if Q.exhaustive then { tau := topDist r, res := r, exit := decide (topDist r ≤ Q.tol) }
+    else { s with res := r, exit := true }
+  else { s with res := r }
+
 /-- the body of the `for` loop for one point index: `dst = dist(pts[index], query)` and the update of `results`, `tau`, `exitflag` -/
 def visit (Q : Query) (kk : Nat) (dq : Nat → Int) (s : St) (index : Nat) : St :=
-  let dst := dq index
-  if dst > Q.mindist && dst ≤ s.tau then
-    let r := if s.res.length == kk then s.res.dropLast else s.res
-    let r := insAsc (dst, (index : Int)) r
-    if r.length == kk then
-      if Q.exhaustive then
-        let tau := topDist r
-        { tau := tau, res := r, exit := decide (tau ≤ Q.tol) }
-      else { s with res := r, exit := true }
-    else { s with res := r }
-  else s
+  if Q.mindist < dq index ∧ dq index ≤ s.tau then accept Q kk s (dq index) index else s
 
 /-- the `for (i < _bucket)` loop over a bucket node: stops at the first negative slot or when `exitflag` is set -/
 def visitLeaves (Q : Query) (kk : Nat) (dq : Nat → Int) : St → List Int → St
   | s, [] => s
   | s, i :: is =>
     if i < 0 then s else
-    let s' := visit Q kk dq s i.toNat
-    if s'.exit then s' else visitLeaves Q kk dq s' is
+    if (visit Q kk dq s i.toNat).exit then visit Q kk dq s i.toNat else visitLeaves Q kk dq (visit Q kk dq s i.toNat) is
 
 /-- one iteration of `for (l < 2)`: the two pruning tests and the push -/
 def pushChild (Q : Query) (tau1 dst lo up c : Int) (todo : List Item) : List Item :=
-  if c ≥ 0 && dst + up ≥ Q.mindist then
+  if 0 ≤ c ∧ Q.mindist ≤ dst + up then
     if dst < lo then
-      let d := lo - dst
-      if tau1 ≥ d then insDesc (-d, c) todo else todo
-    else if dst > up then
-      let d := dst - up
-      if tau1 ≥ d then insDesc (-d, c) todo else todo
+      (if lo - dst ≤ tau1 then insDesc (-(lo - dst), c) todo else todo)
+    else if up < dst then
+      (if dst - up ≤ tau1 then insDesc (-(dst - up), c) todo else todo)
     else insDesc (1, c) todo
   else todo
 
@@ -101,21 +96,19 @@ def loop (tree : Array Node) (bucket : Nat) (dq : Nat → Int) (Q : Query) (kk :
   | _, [], s => some s
   | 0, _ :: _, _ => none
   | f + 1, (prio, n) :: todo, s =>
-    let d := -prio
-    if !(n ≥ 0 && s.tau - Q.tol ≥ d) then loop tree bucket dq Q kk f todo s
-    else match tree[n.toNat]? with
+    if 0 ≤ n ∧ -prio ≤ s.tau - Q.tol then
+      match tree[n.toNat]? with
       | none => none
       | some (.leaf ls) =>
-        let s' := visitLeaves Q kk dq s (ls.take bucket)
-        if s'.exit then some s' else loop tree bucket dq Q kk f todo s'
+        if (visitLeaves Q kk dq s (ls.take bucket)).exit then some (visitLeaves Q kk dq s (ls.take bucket))
+        else loop tree bucket dq Q kk f todo (visitLeaves Q kk dq s (ls.take bucket))
       | some (.inner v lo0 up0 c0 lo1 up1 c1) =>
-        let s' := visit Q kk dq s v
-        if s'.exit then some s' else
-        let dst := dq v
-        let tau1 := s'.tau - Q.tol
-        let todo := pushChild Q tau1 dst lo0 up0 c0 todo
-        let todo := pushChild Q tau1 dst lo1 up1 c1 todo
-        loop tree bucket dq Q kk f todo s'
+        if (visit Q kk dq s v).exit then some (visit Q kk dq s v) else
+        loop tree bucket dq Q kk f
+          (pushChild Q ((visit Q kk dq s v).tau - Q.tol) (dq v) lo1 up1 c1
+            (pushChild Q ((visit Q kk dq s v).tau - Q.tol) (dq v) lo0 up0 c0 todo))
+          (visit Q kk dq s v)
+    else loop tree bucket dq Q kk f todo s
 
 /-- `Search`: the heap content at the end, ascending (this is the order in which `ind` is filled) -/
 def search (tree : Array Node) (numpoints bucket : Nat) (dq : Nat → Int) (Q : Query) : Option (List Item) :=
